@@ -110,6 +110,7 @@ fn install_atfork() {}
 ///
 /// This can also be used to convert a big chunk of synchronous work into a future
 /// so that it can be run in parallel with something like StreamExt::buffered()
+#[cfg(not(lance_verif))]
 pub fn spawn_cpu<F: FnOnce() -> Result<R> + Send + 'static, R: Send + 'static>(
     func: F,
 ) -> impl Future<Output = Result<R>> {
@@ -121,5 +122,31 @@ pub fn spawn_cpu<F: FnOnce() -> Result<R> + Send + 'static, R: Send + 'static>(
         let result = func();
         let _ = send.send(result);
     });
+    recv.map(|res| res.unwrap())
+}
+
+/// Verification hook (only with `--cfg lance_verif`): when set, [`spawn_cpu`] runs
+/// the closure inline on the calling thread instead of the dedicated CPU pool so
+/// that a deterministic simulator owning the (single-threaded) runtime sees no
+/// work outstanding on threads it does not schedule.  Off by default.
+#[cfg(lance_verif)]
+pub static VERIF_INLINE_CPU: atomic::AtomicBool = atomic::AtomicBool::new(false);
+
+#[cfg(lance_verif)]
+pub fn spawn_cpu<F: FnOnce() -> Result<R> + Send + 'static, R: Send + 'static>(
+    func: F,
+) -> impl Future<Output = Result<R>> {
+    let (send, recv) = tokio::sync::oneshot::channel();
+    let span = Span::current();
+    let task = move || {
+        let _span_guard = span.enter();
+        let result = func();
+        let _ = send.send(result);
+    };
+    if VERIF_INLINE_CPU.load(Ordering::Relaxed) {
+        task();
+    } else {
+        global_cpu_runtime().spawn_blocking(task);
+    }
     recv.map(|res| res.unwrap())
 }
